@@ -18,6 +18,11 @@ def gen(rng, tier, n_quick=60, n_thorough=1500):
         # loads on supported nodes, solved directly and from the .inkfempre text read back
         s = G.gen_support_loads(rng)
         cases.append(core.case_from_struct(s, Weight=False, Solve=True, Assemble=True, Error="", ViaPre=(i % 2 == 0)))
+    for i in range(4 if tier == "quick" else 40):
+        s = [G.gen_disparate_loads, G.gen_doubled_tie][i % 2](rng)
+        if i % 4 == 3:
+            s = G.with_unused_node(s, rng)
+        cases.append(core.case_from_struct(s, Weight=False, Solve=True, Assemble=True, Error="", ViaPre=False))
     for i in range(n):
         s = G.gen_solvable(rng)
         cases.append(core.case_from_struct(s, Weight=core.weights(i), Solve=True, Assemble=True, Error=ERRORS[i % len(ERRORS)],
